@@ -568,6 +568,19 @@ class Sym:
             if kind == 'Result':
                 return done(('agg', 'core::result::Result', 'Err', {'0': ('conv', 'from', ('f', ('dc', x, 'Err'), '0'))}))
             return done(('agg', 'core::option::Option', 'None', {}))
+        if re.search(r'core::bool::(<impl bool>::)?then(_some)?$', sp) and len(args) == 2:
+            # c.then(|| x) / c.then_some(x)  =  if c { Some(x) } else { None }
+            lazy = not sp.endswith('then_some')
+
+            def on_bool(s2, val):
+                if not val:
+                    self.after(s2, dest, self.mk('Option', 'None'), target, blk)
+                elif lazy:
+                    r = self.apply(s2, args[1], [], lambda s3, v: self.after(s3, dest, self.mk('Option', 'Some', v), target, blk), blk, strict=True)
+                else:
+                    self.after(s2, dest, self.mk('Option', 'Some', args[1]), target, blk)
+            self.fork_bool(st, args[0], on_bool)
+            return None
         m = re.match(r'core::(option::Option|result::Result)::<.*?>::(\w+)$|core::(option::Option|result::Result)::(\w+)$', sp)
         if m:
             kind = 'Option' if 'Option' in (m.group(1) or m.group(3)) else 'Result'
@@ -660,6 +673,28 @@ class Sym:
             if known is None or isinstance(known, tuple):
                 s2.conds.append((d, val))
             k(s2, ok)
+
+    def fork_bool(self, st, d, k):
+        """Case split on a boolean term: k(state, truth value); decisions already taken stay authoritative."""
+        if d[0] == 'c' and isinstance(d[1], (int, bool)):
+            k(st, bool(d[1]))
+            return
+        neg = False
+        while d[0] == 'un' and d[1] == 'Not':
+            d = d[2]
+            neg = not neg
+        key = ckey(d)
+        known = None
+        for c, v in st.conds:
+            if ckey(c) == key and isinstance(v, bool):
+                known = v
+        for val in (True, False):
+            if known is not None and known != val:
+                continue
+            s2 = st.fork()
+            if known is None:
+                s2.conds.append((d, val))
+            k(s2, val != neg)
 
     def mk(self, kind, variant, v=None):
         adt = 'core::option::Option' if kind == 'Option' else 'core::result::Result'
